@@ -341,7 +341,7 @@ func Run(r *ev.Run) {
 		"(ii) Resolve (then Validate, Marshal, CloneSchemas when it succeeds) on Schema graphs: every pair of subschema-bearing fields with a shared child, a 2-cycle, self-cycles, nil children, the same child twice, 300-deep chains, conflicting fields, 23 malformed URIs in every URI-valued field, 66 JSON Pointers leading into non-schema keywords of a fully populated schema ($ref and $dynamicRef), x 13 resolve-option sets (malformed/relative/fragment BaseURI, loader error / wrong document / self-referential / ping-pong universe, ValidateDefaults with malformed default bytes); " +
 		"(v) three-document universes root -> d1 -> d2 through a Loader, each document declaring 2020-12 / draft-07 / nothing, d1 and d2 each carrying one of 15 draft-specific keyword shapes, 4 root forms: Resolve, then Validate and ApplyDefaults on 6 instances; " +
 		"(iii) Validate and ApplyDefaults on every (schema, value, representation) of C08's space, plus ApplyDefaults on typed map targets with defaults of matching and of wrong JSON type; (iv) For/ForType on every G-type type incl. recursive and unsupported ones x IgnoreInvalidTypes x TypeSchemas {nil, shared, cyclic}. " +
-		"Oracle: recover() around each call; a fatal runtime error kills the worker process and is attributed by the parent through the mmap journal; 120 s watchdog per call. Non-trivial = every call (distinct by construction)")
+		"Oracle: recover() around each call; a fatal runtime error kills the worker process and is attributed by the parent through the mmap journal; 900 s watchdog per call. Non-trivial = every call (distinct by construction)")
 	r.Assume("contract violations are not inputs: ApplyDefaults with a non-pointer / struct target, ForType(nil), cyclic instances, a Loader returning (nil, nil)")
 
 	// (i)
